@@ -24,23 +24,24 @@ def run(tier, seed):
     found = sp.model_check(r, work, tier, ["exit_race", "late_register"])
     vlib.build_harness  # (built by ./check)
 
-    # directed reproduction of the exit race on the real VM, validated by TLC
-    d = sp.run_directed(["exit_race"], work)
-    end, val, path = d["exit_race"]
-    r.cov["evaluations"] += 1
-    sample = {"scenario": "directed-exit_race", "end": end, "validation": val}
-    r.cov["samples"].append(sample)
-    tags = {t for t, _ in val["flags"]}
-    if tags & set(sp.SIGNATURES) and all(sp.SIGNATURES.get(t) == "exit_race" for t in tags):
-        if KF["exit_race"] in known:
-            r.known[KF["exit_race"]] = next(f["what"] for f in r.findings if f["key"] == KF["exit_race"])
+    # directed reproduction of each deviation on the real VM, validated by TLC
+    d = sp.run_directed(["exit_race", "late_register"], work)
+    for name in ("exit_race", "late_register"):
+        end, val, path = d[name]
+        r.cov["evaluations"] += 1
+        sample = {"scenario": "directed-" + name, "end": end, "validation": val}
+        r.cov["samples"].append(sample)
+        tags = {t for t, _ in val["flags"]}
+        if tags and all(sp.SIGNATURES.get(t) == name for t in tags):
+            if KF[name] in known:
+                r.known[KF[name]] = next(f["what"] for f in r.findings if f["key"] == KF[name])
+            else:
+                r.violation(f"{name} reproduced on the real VM: {sorted(tags)}", {"id": "directed-" + name, "trace": path, **sample})
+        elif not val["accepted"]:
+            r.violation(f"directed trace {name}: {val}", {"id": "directed-" + name, "trace": path, **sample})
         else:
-            r.violation(f"safepoint exit race reproduced on the real VM: {sorted(tags)}", {"id": "directed-exit_race", "trace": path, **sample})
-    elif not val["accepted"]:
-        r.violation(f"directed trace rejected: {val}", {"id": "directed-exit_race", "trace": path, **sample})
-    else:
-        r.cov["traces_validated_against_impl"] += 1
-        r.notes.append("directed exit_race scenario did not reproduce the race this time")
+            r.cov["traces_validated_against_impl"] += 1
+            r.notes.append(f"directed {name} scenario did not reproduce this time")
 
     # free-running stress, seeded perturbation, every trace validated
     rounds = 1 if tier == "quick" else 6
@@ -57,8 +58,10 @@ def run(tier, seed):
         if val["rejected"]:
             r.violation(f"{sc['id']}: trace rejected by Trace_Safepoint (spec drift or unknown event)", {"id": sc["id"], "trace": path, "end": end})
         elif c15tags:
-            if all(sp.SIGNATURES.get(t) == "exit_race" for t in c15tags) and KF["exit_race"] in known:
-                r.known[KF["exit_race"]] = next(f["what"] for f in r.findings if f["key"] == KF["exit_race"])
+            causes = {sp.SIGNATURES.get(t) for t in c15tags}
+            if causes <= set(KF) and all(KF[c] in known for c in causes):
+                for c in causes:
+                    r.known[KF[c]] = next(f["what"] for f in r.findings if f["key"] == KF[c])
             else:
                 r.violation(f"{sc['id']}: {sorted(c15tags)}", {"id": sc["id"], "trace": path, "end": end, "validation": val})
         else:
